@@ -50,6 +50,10 @@ def gen_case(rng, idx):
                 p.append(float(np.round(rng.choice([-1, 1]) * rng.uniform(max(lo_l, 0.02), hi_l) * lim, 3)))
         dt = [float(np.round(rng.choice([1.0, 10.0, 60.0, rng.uniform(0.5, 3600)]), 2)) for _ in range(n)]
     scalar_dt = n == 1 and rng.random() < 0.5
+    if "converter" in spec and rng.random() < 0.25:
+        # the store behind the converter is revised after the system was assembled (an aged battery): the system is asked
+        # with the efficiencies its store has NOW (seeded change C17-r6: the system kept the copies it took at construction)
+        spec["revised"] = {"eta_c": float(np.round(rng.uniform(0.6, 1.0), 3)), "eta_d": float(np.round(rng.uniform(0.6, 1.0), 3))}
     if mode != "roundtrip" and n > 1 and rng.random() < 0.2:
         # a constant terminal power held as a single value (an array of one element or a python number) over the interval series
         mode = "constant-single"
@@ -63,6 +67,11 @@ def gen_case(rng, idx):
 def run_case(ctx, case, model=True):
     spec = case["spec"]
     comp = comps.make_storage(spec)
+    if spec.get("revised"):
+        store = comp.battery if spec["kind"] == "battery_system" else comp.supercapacitor
+        store.eff_charging, store.eff_discharging = spec["revised"]["eta_c"], spec["revised"]["eta_d"]
+        spec = dict(spec, eta_c=spec["revised"]["eta_c"], eta_d=spec["revised"]["eta_d"])
+        ctx.count("store_revised_after_assembly", spec["kind"])
     p = np.array(case["p"], dtype=float)
     dt = case["dt"] if not isinstance(case["dt"], list) else np.array(case["dt"], dtype=float)
     where = {"case": case}
@@ -138,7 +147,7 @@ def run_case(ctx, case, model=True):
         try:
             comp.power_input *= -1
             e2, soc2 = comp.get_energy_stored_kj(dt, M), comp.get_soc(dt, M)
-            fresh = comps.make_storage(spec)
+            fresh = comps.make_storage({k: v for k, v in spec.items() if k != "revised"})
             fresh.power_input = -p
             e3, soc3 = fresh.get_energy_stored_kj(dt, M), fresh.get_soc(dt, M)
             ctx.count("series_changed_in_place_between_queries", True)
